@@ -132,26 +132,28 @@ Qed.
 
 (* ------------------------------------------------------------------ normal form of a ring given by its open vertex list *)
 Definition norm_open (cw : bool) (o : list pt) : list pt :=
-  let c := close_ring false (scroll (min_coord o) o) in if Bool.eqb (isCCW c) cw then rev c else c.
+  let c := close_ring POLY_CLOSE_ALLOW_REPEATED (scroll (min_coord o) o) in if Bool.eqb (isCCW c) cw then rev c else c.
 Lemma norm_ring_open : forall cw o x, norm_ring cw (o ++ [x]) = norm_open cw o.
 Proof.
   intros cw o x. unfold norm_ring, norm_open. rewrite removelast_last. destruct (o ++ [x]) eqn:E; [destruct o; discriminate|reflexivity].
 Qed.
 (* the hypothesis on Orientation::isCCW: it answers oppositely for the two directions of the scrolled, closed ring *)
 Definition orient_det (o : list pt) : Prop :=
-  let c := close_ring false (scroll (min_coord o) o) in isCCW (rev c) = negb (isCCW c).
+  let c := close_ring POLY_CLOSE_ALLOW_REPEATED (scroll (min_coord o) o) in isCCW (rev c) = negb (isCCW c).
 
-Lemma close_unique : forall m t, ~ In m t -> t <> [] -> close_ring false (m :: t) = m :: t ++ [m].
+Lemma close_unique_gen : forall allow m t, ~ In m t -> t <> [] -> close_ring allow (m :: t) = m :: t ++ [m].
 Proof.
-  intros m t Hn Hne. unfold close_ring. cbn [orb].
+  intros allow m t Hn Hne. unfold close_ring.
   assert (pt_eqb m (last (m :: t) m) = false).
   { apply pt_eqb_neq. intros E. apply Hn. destruct t as [|y r]; [congruence|].
     change (last (m :: y :: r) m) with (last (y :: r) m) in E.
     assert (Hl : In (last (y :: r) m) (y :: r)).
     { destruct (exists_last (l := y :: r)) as (l' & z & El); [discriminate|]. rewrite El, last_last. apply in_or_app. right. left. reflexivity. }
     rewrite <- E in Hl. exact Hl. }
-  rewrite H. reflexivity.
+  rewrite H. destruct allow; reflexivity.
 Qed.
+Lemma close_unique : forall m t, ~ In m t -> t <> [] -> close_ring POLY_CLOSE_ALLOW_REPEATED (m :: t) = m :: t ++ [m].
+Proof. intros. apply close_unique_gen; assumption. Qed.
 
 Section RingTheorems.
   Variables (cw : bool) (o : list pt).
